@@ -40,17 +40,25 @@ func (s *Sim) auditLedger(li int, when string) {
 		if d := chainedLogDiff(r.Orig, cl); d != "" {
 			s.violate("C13", "round-trip-changes-entry", fmt.Sprintf("%s (%s): entry %d (%s) read back from its stored form differs from what was written: %s", m.Name, when, idx, r.Type, d), feat...)
 		}
-		// Whether the stored hash chains onto the actual predecessor is C05's question; here the
-		// round-tripped content must hash exactly like the written content, and therefore
-		// reproduce the stored hash whenever the written content did.
+		// "recomputing its hash from the round-tripped content and the previous hash yields the
+		// stored hash": the previous hash is the actual predecessor's stored hash. (If the written
+		// content does not reproduce it either, the entry was hashed over something else than what
+		// was stored, or chained onto something else than its predecessor -- C05 reports the
+		// latter too; both statements are then violated.)
 		lg := cl.Log
 		re := lg.ChainLog(prevCL)
 		ol := r.Orig.Log
 		want := ol.ChainLog(prevCL)
-		if !bytes.Equal(re.Hash, want.Hash) {
+		if !bytes.Equal(re.Hash, r.Hash) {
+			f := append([]string{}, feat...)
+			if bytes.Equal(want.Hash, r.Hash) {
+				f = append(f, "round-trip-changed-the-hashed-content")
+			} else {
+				f = append(f, "written-content-does-not-reproduce-it-either")
+			}
 			a, _ := json.Marshal(r.Orig.Log)
 			b, _ := json.Marshal(lg)
-			s.violate("C13", "hash-not-reproducible", fmt.Sprintf("%s (%s): entry %d (%s): recomputing the hash from the round-tripped content and the previous hash does not give the stored hash; written form %s, read-back form %s", m.Name, when, idx, r.Type, a, b), feat...)
+			s.violate("C13", "hash-not-reproducible", fmt.Sprintf("%s (%s): entry %d (%s): recomputing the hash from the round-tripped content and the previous hash does not give the stored hash; written form %s, read-back form %s", m.Name, when, idx, r.Type, a, b), f...)
 		}
 		// the JSON form served by the API / export: Marshal then ChainedLog.UnmarshalJSON
 		func() {
@@ -73,7 +81,7 @@ func (s *Sim) auditLedger(li int, when string) {
 				s.violate("C13", "json-round-trip-changes-entry", fmt.Sprintf("%s (%s): entry %d (%s): %s", m.Name, when, idx, r.Type, d), feat...)
 			}
 			bl := back.Log
-			if !bytes.Equal(bl.ChainLog(prevCL).Hash, want.Hash) {
+			if !bytes.Equal(bl.ChainLog(prevCL).Hash, r.Hash) {
 				s.violate("C13", "hash-not-reproducible", fmt.Sprintf("%s (%s): entry %d (%s): hash recomputed from the JSON round trip differs from the stored hash", m.Name, when, idx, r.Type), append(feat, "json")...)
 			}
 		}()
@@ -380,7 +388,7 @@ func (s *Sim) reexecOne(ctx context.Context, name string, e *Entry, o *OpRecord,
 	}
 	same := postingsEqual(res.Postings, e.Tx.Postings)
 	balanceIndependent := o.Op.Kind == "script" && (o.Op.Tpl == tplWorld || o.Op.Tpl == tplOverdraftUnbounded || o.Op.Tpl == tplSetAccountMeta ||
-		o.Op.Tpl == tplArith || o.Op.Tpl == tplPortionVar || o.Op.Tpl == tplMetaVar)
+		o.Op.Tpl == tplArith || o.Op.Tpl == tplPortionVar || o.Op.Tpl == tplMetaVar || o.Op.Tpl == tplAssetVar)
 	if o.Op.Kind == "postings" {
 		balanceIndependent = true // posting mode: the postings are the request
 	}
